@@ -33,15 +33,38 @@ def run(run):
         run.count('units')
         run.count('functions', len(F.fns))
         one(run, F, E)
+        qualified_calls(run, F, E)
         facts.drop(F)
         cfgmod.clear_cache()
     run.floor('C15.a', 45)
     run.floor('C15.b', 30)
+    run.floor('C15.c', 30)
     run.explanation = (
         'Order rule on the control-flow graphs of the instantiated S_ wrappers and A_ dispatchers of witness w_inj '
         '(states with 0,1,2,3 injections plus a head with 2; every callback defined at every level): the resolved user '
         'callees are flattened in program order and compared with the order the statement prescribes. The pattern-level '
         'clause (C15.b) covers every number of injections by induction over the recursive and the base A_ template.')
+
+
+def qualified_calls(run, F, E):
+    """C15.c: every user callback is invoked through a *qualified* name (`First::enter(control)`, `Head::enter(control)`), i.e. without
+    virtual dispatch: were the call made through the object (`static_cast<First&>(*this).enter(control)`), an injection that declares its
+    callbacks virtual would have them redirected to the final overrider -- the state's own callback would run once per injection and the
+    injections' never."""
+    for fn in F.fns:
+        if fn.tkey not in ('ffsm2::detail::A_', 'ffsm2::detail::S_') or fn.body is None:
+            continue
+        c = cfgmod.cfg_of(fn)
+        sites = []
+        for n in c.events(('call',)):
+            g, u = anchors.call_target(F, E, fn, n)
+            if u is not None and not anchors.is_logger_call(n.e) and not n.e.get('pm'):
+                sites.append(n)
+        if not sites:
+            continue
+        bad = [ir.pp(n.e)[:80] for n in sites if not n.e.get('qualified')]
+        run.ob('C15.c', '%s::%s invokes its %d user callback(s) through qualified names (no virtual dispatch)' % (fn.tkey.split('::')[-1], fn.m, len(sites)), not bad,
+               where=fn.pat, detail=bad[:3] or None, key='%s::%s can dispatch a user callback virtually' % (fn.tkey.split('::')[-1], fn.m))
 
 
 def one(run, F, E):
